@@ -2,6 +2,7 @@ package main
 
 import (
 	"bytes"
+	"encoding/hex"
 	"fmt"
 	"reflect"
 	"strings"
@@ -330,10 +331,22 @@ func deepSig(sb *strings.Builder, v reflect.Value, o sigOpts, depth int, seen ma
 		fallthrough
 	case reflect.Array:
 		if v.Type().Elem().Kind() == reflect.Uint8 {
-			sb.WriteString("x")
-			for i := 0; i < v.Len(); i++ {
-				fmt.Fprintf(sb, "%02x", v.Index(i).Uint())
+			n := v.Len()
+			buf := make([]byte, n)
+			for i := 0; i < n; i++ {
+				buf[i] = byte(v.Index(i).Uint())
 			}
+			if n > 96 && !o.exportedOnly {
+				// long byte strings (payloads repeated in every layer): length + FNV-1a hash
+				h := uint64(14695981039346656037)
+				for _, c := range buf {
+					h = (h ^ uint64(c)) * 1099511628211
+				}
+				fmt.Fprintf(sb, "x%x…#%d:%016x", buf[:16], n, h)
+				return
+			}
+			sb.WriteString("x")
+			sb.WriteString(hex.EncodeToString(buf))
 			return
 		}
 		sb.WriteString("[")
